@@ -464,6 +464,9 @@ func (g *chainGen) config() *chainCfg {
 				}
 				d.Mode = g.pick(modes)
 				d.N = 1 + g.r.Intn(5)
+				if g.r.Intn(6) == 0 {
+					d.N = 8 + g.r.Intn(3) // counts that differ when misread in another base
+				}
 				d.Typ = tArrNum
 				if isStr {
 					d.Typ = tArrStr
@@ -481,7 +484,7 @@ func (g *chainGen) config() *chainCfg {
 		if d.Mode == "single" {
 			line = fmt.Sprintf("%s computes %s as %s", m.Name, d.Name, d.E.Src())
 		} else {
-			line = fmt.Sprintf("%s collects %s as %s %d %s", m.Name, d.Name, d.Mode, d.N, d.E.Src())
+			line = fmt.Sprintf("%s collects %s as %s %s %s", m.Name, d.Name, d.Mode, spellN(g.r, d.N), d.E.Src())
 		}
 		c.Lines = append(c.Lines, line)
 		m.Assigns = append(m.Assigns, audgen.Assign{Target: d.Name, Mode: d.Mode, N: d.N, E: d.E})
@@ -705,6 +708,7 @@ type assignClause struct {
 	Target string
 	Mode   string
 	N      int
+	NText  string // how N is written in the configuration ("" = plain decimal)
 	E      *audgen.Expr
 	Deps   []string // input variables the expression mentions
 }
@@ -725,11 +729,52 @@ func (c *assignCfg) text() string {
 		if cl.Mode == "single" {
 			fmt.Fprintf(&b, "  al computes %s as %s\n", cl.Target, cl.E.Src())
 		} else {
-			fmt.Fprintf(&b, "  al collects %s as %s %d %s\n", cl.Target, cl.Mode, cl.N, cl.E.Src())
+			fmt.Fprintf(&b, "  al collects %s as %s %s %s\n", cl.Target, cl.Mode, cl.nText(), cl.E.Src())
 		}
 	}
 	b.WriteString("end\n")
 	return b.String()
+}
+
+func (cl *assignClause) nText() string {
+	if cl.NText != "" {
+		return cl.NText
+	}
+	return fmt.Sprintf("%d", cl.N)
+}
+
+// spellN writes a count the way the grammar admits it: the clause's regexp
+// takes any run of digits and the count is read in DECIMAL, so leading zeros
+// are allowed and mean nothing (010 is ten, 09 is nine).
+func spellN(r *rand.Rand, n int) string {
+	switch r.Intn(6) {
+	case 0:
+		return fmt.Sprintf("0%d", n)
+	case 1:
+		return fmt.Sprintf("%0*d", 2+r.Intn(3), n)
+	}
+	return fmt.Sprintf("%d", n)
+}
+
+// countSpellings are collects clauses whose count is written with leading
+// zeros (and a few that must be refused: the count must be at least 1).
+type countSpelling struct {
+	Text   string
+	N      int
+	Accept bool
+}
+
+var fixedSpellings = []countSpelling{
+	{"010", 10, true}, {"0012", 12, true}, {"09", 9, true}, {"007", 7, true}, {"08", 8, true},
+	{"019", 19, true}, {"0010", 10, true}, {"10", 10, true}, {"8", 8, true}, {"0100", 100, true}, {"01", 1, true},
+	{"0", 0, false}, {"00", 0, false},
+}
+
+// spellingConfig is a single collects clause over q1 with the count written
+// as given.
+func spellingConfig(mode string, sp countSpelling) *assignCfg {
+	return &assignCfg{Inputs: []string{"q1", "q2"}, Flat: true, Clauses: []assignClause{{
+		Target: "d1", Mode: mode, N: sp.N, NText: sp.Text, E: audgen.V("", "q1"), Deps: []string{"q1"}}}}
 }
 
 func assignConfig(r *rand.Rand) *assignCfg {
@@ -781,6 +826,7 @@ func assignConfig(r *rand.Rand) *assignCfg {
 		} else {
 			cl.Mode = []string{"first", "last", "top", "bottom"}[r.Intn(4)]
 			cl.N = 1 + r.Intn(4)
+			cl.NText = spellN(r, cl.N)
 		}
 		c.Clauses = append(c.Clauses, cl)
 		targets = append(targets, tv{cl.Target, cl.Mode != "single"})
